@@ -36,3 +36,4 @@ CFG = dict(
 CFG["rule"] += " In every C19M mux two more muxes are created between constructing the mux under test and registering on it (one with a decoy configuration '* -> POST /c19/decoy', one with none)."
 CFG["rule"] += ' Shape 5: a config rule no method can take (unknown field): a method it selects must fail to register.'
 CFG["rule"] += ' C19W: one handshake in three goes through the gobwas dialer, the others are written by hand with Connection: "keep-alive, Upgrade" and Connection: "upgrade".'
+CFG["rule"] += ' C19M: before the muxes under test another mux is built from the same configuration object and the decoy configuration; neither object may have changed (observation config-modified).'
